@@ -8,5 +8,5 @@ Separate Extraction
   BinInt.Z.add BinInt.Z.mul BinInt.Z.opp BinInt.Z.div_eucl BinInt.Z.compare BinInt.Z.of_nat BinInt.Z.to_nat
   BinNat.N.add BinNat.N.mul BinNat.N.div_eucl BinInt.Z.of_N BinInt.Z.to_N
   Sem.sem_init Sem.step Sem.run Sem.run_upto Sem.running Sem.holders Sem.all_done
-  Rate.acquire Rate.required_wait Rate.final Rate.trace Rate.granted_tokens Rate.grant_time
+  Rate.acquire Rate.q_acquire Rate.q_final Rate.required_wait Rate.final Rate.trace Rate.granted_tokens Rate.grant_time
   Rate.rinit Rate.rstep Rate.rrun Rate.atomic_sched Rate.log_granted_tokens Rate.g_time Rate.all_idle.
